@@ -1,5 +1,7 @@
 (* C03 — payloads accepted by validation expose only in-bounds data. *)
-Require Import CMP.Bytes CMP.Packet CMP.PacketProofs CMP.Tecmp CMP.Cir CMP.CodeBridge CMP.CodeValidators CMPGen.GenCode.
+Require Import CMP.Bytes CMP.Packet CMP.PacketProofs CMP.Tecmp CMP.Cir CMP.CodeBridge CMP.CodeValidators CMP.CodeViews CMPGen.GenCode.
+From Coq Require Import String List.
+Import ListNotations.
 Local Open Scope Z_scope.
 
 (* For every typed payload class (kind 1 CAN, 2 CAN-FD, 3 LIN, 7 analog, 8 Ethernet, 49 capture-module status, 50 interface status) and
@@ -51,6 +53,51 @@ Theorem C03_translated_message_check_refines_the_model : forall d c,
   ceval gen_reads d (penv d) c = Ok (b2z (valid_packet d (zlen d))).
 Proof. exact code_valid_packet. Qed.
 Print Assumptions C03_translated_message_check_refines_the_model.
+
+(* Tie T2, views. The variable-length view accessors themselves - getData of CAN / CAN-FD, LIN and Ethernet, getSamplesCount / getData of the
+   analog payload, getStreamIdsCount / getStreamIds / getVendorDataLength of the interface status -, re-translated from /repo on this run
+   as member functions over the payload's own byte vector: on EVERY payload its validator accepts they read in bounds and return the
+   offset (-1 = nullptr) and length that lie inside the payload. view_analog_model / view_if_model (CodeViews.v) identify these values
+   with the elements of the model's view_analog / view_if that the first theorem speaks about. *)
+Theorem C03_translated_data_views_in_bounds : forall d,
+  bytes_ok d -> zlen d < 2 ^ 64 ->
+  (valid_lin d = true -> forall c, code_LinPayload_getData = Some c ->
+     ceval gen_reads d (penv d) c = Ok (if nb d 0 7 =? 0 then -1 else 8) /\ 8 + nb d 0 7 <= zlen d) /\
+  (valid_can d = true -> forall c, code_CanPayloadBase_getData = Some c ->
+     ceval gen_reads d (penv d) c = Ok (if nb d 0 15 =? 0 then -1 else 16) /\ 16 + nb d 0 15 <= zlen d) /\
+  (valid_eth d = true -> forall c, code_EthernetPayload_getData = Some c ->
+     ceval gen_reads d (penv d) c = Ok (if nb d 0 4 * 256 + nb d 0 5 =? 0 then -1 else 6) /\ 6 + (nb d 0 4 * 256 + nb d 0 5) <= zlen d).
+Proof.
+  intros d Hd Hn. split; [|split]; intros Hv c Hc;
+    first [ apply (view_lin_data d c Hd Hn Hv Hc) | apply (view_can_data d c Hd Hn Hv Hc) | apply (view_eth_data d c Hd Hn Hv Hc) ].
+Qed.
+Print Assumptions C03_translated_data_views_in_bounds.
+
+Theorem C03_translated_analog_views : forall d, bytes_ok d -> zlen d < 2 ^ 64 -> valid_analog d = true ->
+  (forall c, code_AnalogPayload_getSamplesCount = Some c ->
+     ceval gen_reads d (penv d) c = Ok ((zlen d - 16) / (if an_dt_le d =? 0 then 2 else 4))) /\
+  (forall c, code_AnalogPayload_getData = Some c ->
+     ceval gen_reads d (penv d) c = Ok (if (zlen d - 16) / (if an_dt_le d =? 0 then 2 else 4) =? 0 then -1 else 16)).
+Proof. intros d Hd Hn Hv. split; intros c Hc; [apply view_analog_count | apply view_analog_data]; assumption. Qed.
+Print Assumptions C03_translated_analog_views.
+
+Theorem C03_translated_interface_views : forall d, bytes_ok d -> zlen d < 2 ^ 64 -> valid_if d = true ->
+  (forall c, code_InterfacePayload_getStreamIdsCount = Some c -> ceval gen_reads d (penv d) c = Ok (if_cnt d)) /\
+  (forall c, code_InterfacePayload_getStreamIds = Some c ->
+     ceval gen_reads d (penv d) c = Ok (if if_cnt d =? 0 then -1 else 38) /\ 38 + if_cnt d <= zlen d) /\
+  (forall c, code_InterfacePayload_getVendorDataLength = Some c -> ceval gen_reads d (penv d) c = Ok (u16 d (38 + if_cntv d))).
+Proof.
+  intros d Hd Hn Hv. split; [|split]; intros c Hc;
+    first [ apply (view_if_count d c Hd Hn Hv Hc) | apply (view_if_ids d c Hd Hn Hv Hc) | apply (view_if_vendor_len d c Hd Hn Hv Hc) ].
+Qed.
+Print Assumptions C03_translated_interface_views.
+
+Theorem C03_every_view_accessor_translated :
+  lost_among ["ASAM::CMP::LinPayload::getData"; "ASAM::CMP::CanPayloadBase::getData"; "ASAM::CMP::EthernetPayload::getData";
+              "ASAM::CMP::AnalogPayload::getSamplesCount"; "ASAM::CMP::AnalogPayload::getData";
+              "ASAM::CMP::InterfacePayload::getStreamIdsCount"; "ASAM::CMP::InterfacePayload::getStreamIds";
+              "ASAM::CMP::InterfacePayload::getVendorDataLength"]%string = nil.
+Proof. vm_compute. reflexivity. Qed.
 
 (* every validator that exists in the sources was inside the translatable fragment on this run (a function that was removed is `None`
    above and has nothing to show; one that exists but could not be translated would be listed here) *)
